@@ -51,4 +51,11 @@ CLAIMED.update({
   "technique": "symbolic execution with loop summaries (generic iteration + inverse index map obligation) and Sigma-term extensionality; z3",
  },
 })
+CLAIMED.update({
+ "C12": {
+  "text": "Unbounded proofs from the real source: zernIndex, for every j >= 1, lands in {n>=0, |m|<=n, n-|m| even}, even j <-> m>0, is injective, ordered by n then |m|, and onto (explicit inverse J(n,m)); zernikeRadialFunc is the factorial sum of the statement for all 0<=m<=n (loop summary + Sigma extensionality); zernike_nm is Noll factor * radial * cos/sin(|m| theta + rot) inside the inscribed pupil and 0 outside for every N, n, m, rot; zernike_noll = zernike_nm o zernIndex; zernikeArray(count)[j-1] and zernikeArray(list)[i] are zernike_noll(j), zernike_noll(J[i]) (list = matching slices, unbounded count); phaseFromZernikes is sum_z c[z] * zernikeArray(len(c))[z] for all three normalisations. p2v / rms normalisation, orthonormality (Gram matrix) and the gamma matrices are bounded native stand-ins only (labelled bounded).",
+  "note": BASE + "sqrt in zernIndex is exact (A-REAL) and bridged by a bounded native comparison against an integer-only specification; small nonlinear steps (squaring of the int() bracket, monotonicity of triangular numbers, mask agreement) are lemmas proved as separate obligations; cos / sin / arctan2 / pow / factorial uninterpreted (factorial >= 1).",
+  "technique": "symbolic execution with callee contracts and loop summaries; QF nonlinear integer/real arithmetic with auxiliary lemmas; Sigma extensionality; z3 (parallel)",
+ },
+})
 NOT_APPLICABLE = {}
